@@ -123,7 +123,7 @@ fn cells(tier: &str) -> Vec<Value> {
         }
     }
     // many clones released together from different threads (schedules SAMPLED by repetition)
-    v.push(json!({"cell": id, "family": "clone-stampede", "calls": 8, "rounds": if tier == "thorough" { 400 } else { 60 }}));
+    v.push(json!({"cell": id, "family": "clone-stampede", "calls": 8, "rounds": if tier == "thorough" { 3000 } else { 400 }}));
     id += 1;
     // the reply to a timed-out request arrives while the request issued `distance` requests later
     // is in flight (ids that coincide modulo a table size or after truncation)
@@ -523,17 +523,25 @@ async fn stampede_cell(addr: SocketAddr, set: Arc<CertSet>, topic: String, c: Va
         .await
         .map_err(|e| fail("open-error", &class, format!("requestor open failed: {e}")))?;
     let n = 8usize;
-    let barrier = Arc::new(std::sync::Barrier::new(n));
+    // a spin rendezvous: the threads leave it within nanoseconds of one another
+    let arrived = Arc::new(std::sync::atomic::AtomicUsize::new(0));
     let rt = tokio::runtime::Handle::current();
     let mut threads = Vec::new();
     for t in 0..n {
         let mut r = req.clone();
-        let barrier = barrier.clone();
+        let arrived = arrived.clone();
         let rt = rt.clone();
         threads.push(std::thread::spawn(move || -> Result<(), String> {
             for round in 0..rounds {
                 let body = format!("round{round}-thread{t}");
-                barrier.wait();
+                arrived.fetch_add(1, std::sync::atomic::Ordering::SeqCst);
+                let t0 = Instant::now();
+                while arrived.load(std::sync::atomic::Ordering::SeqCst) < n * (round + 1) {
+                    std::hint::spin_loop();
+                    if t0.elapsed() > Duration::from_secs(30) {
+                        return Err("rendezvous timed out (another thread has stopped)".into());
+                    }
+                }
                 match rt.block_on(r.request(body.clone())) {
                     Ok(v) if v == format!("re:{body}") => {}
                     Ok(v) => return Err(format!("{body} returned Ok({v:?})")),
